@@ -40,3 +40,9 @@ def assume(c):
 def snapshot(b):
     """immutable copy of a bytes-like (for event payloads)"""
     return bytes(b)
+
+
+def crc_of(data):
+    """CRC-16/XMODEM of a whole byte string (the peer's own computation)"""
+    import binascii
+    return binascii.crc_hqx(bytes(data), 0)
